@@ -58,7 +58,13 @@ def run_unit(unit_name, tier, seed, only_props=None):
         env = dict(os.environ, CARGO_NET_OFFLINE="true", RUSTFLAGS="--cfg hpbf_verif_native",
                    CARGO_TARGET_DIR=os.path.join(sc.path, "target_native"))
         profile = ["--release"] if getattr(unit, "RELEASE", False) else []
-        cmd = ["cargo", "test", "--offline", "--lib"] + profile + [unit.TEST_FILTER, "--", "--nocapture", "--test-threads", "8"]
+        miri = getattr(unit, "MIRI", False)
+        if miri:
+            # the real functions executed by Miri: every out-of-bounds access / other UB is reported
+            cmd = ["cargo", "+nightly", "miri", "test", "--offline", "--lib", unit.TEST_FILTER, "--", "--nocapture", "--test-threads", "8"]
+            result["backend"] = "native enumeration under Miri (cargo +nightly miri test) -- bounded stand-in, not a proof"
+        else:
+            cmd = ["cargo", "test", "--offline", "--lib"] + profile + [unit.TEST_FILTER, "--", "--nocapture", "--test-threads", "8"]
         result["cmd"] = "RUSTFLAGS='--cfg hpbf_verif_native' " + " ".join(cmd)
         try:
             p = subprocess.run(cmd, cwd=sc.repo, env=env, capture_output=True, text=True,
@@ -70,14 +76,24 @@ def run_unit(unit_name, tier, seed, only_props=None):
         lines = {}
         for m in re.finditer(r"NATIVE (\S+) (OK|FAIL) cases=(\d+)(?: nontrivial=(\d+))?(?: first=(.*))?", out):
             lines[m.group(1)] = (m.group(2), int(m.group(3)), m.group(5) or "", int(m.group(4)) if m.group(4) else None)
-        if not lines and not result["error"]:
+        ub = None
+        if miri and "Undefined Behavior" in out:
+            m = re.search(r"error: Undefined Behavior: ([^\n]*)", out)
+            at = re.findall(r"^\s+--> (src/[^\n]*)", out, re.M)
+            last = re.findall(r"N5CASE ([^\n]*)", out)
+            ub = "Miri: Undefined Behavior: %s%s; last case started: %s" % (m.group(1) if m else "?", (" at " + at[0]) if at else "", last[-1] if last else "?")
+        if not lines and not result["error"] and not ub:
             errs = re.findall(r"^error.*(?:\n.*){0,8}", out, re.M)
             result["error"] = "native stage produced no result (does the overlay still compile against /repo?): " + "\n".join(errs[:2])[:900]
         for o in obs:
             e = dict(o)
             e["name"] = "%s::%s" % (unit_name, o["id"])
             got = lines.get(o["id"])
-            if got is None:
+            if got is None and ub:
+                # Miri stopped the test binary: the obligations whose result line is missing fail with the UB report
+                e.update({"status": "failed", "reason": "contract violated on enumerated input: " + ub[:600], "n_checks": 0, "solver_s": None,
+                          "failed_checks": [{"description": ub[:400]}], "native_failing_input": ub})
+            elif got is None:
                 e.update({"status": "undecided", "reason": result["error"] or "no result line (test panicked before reporting?)",
                           "n_checks": 0, "solver_s": None, "failed_checks": []})
             elif got[0] == "OK" and (got[1] == 0 or got[3] == 0):
